@@ -164,8 +164,12 @@ def leanchecker(modules):
     return rc == 0, out
 
 
+USED_LAYERS = set()
+
+
 def run_driver(layer, lines, timeout=600):
     """Feed `lines` to the compiled model driver; one output line per input line."""
+    USED_LAYERS.add(layer)
     if not os.path.exists(DRIVER):
         raise Infra("driver not built: " + DRIVER)
     data = "\n".join(lines) + "\n"
@@ -288,10 +292,10 @@ def _main_check(ctx, pm, replay):
         return 0
 
     # 1. regenerate tables from /repo
-    table_problems = tables.regenerate()
+    tables.regenerate()
 
     # 2. build proofs + driver
-    proof_problems = list(table_problems)
+    proof_problems = []
     ok, log = lean_build(["MxModel.Props." + prop, "mxdriver"])
     build_ok = ok
     if not ok:
@@ -348,6 +352,13 @@ def _main_check(ctx, pm, replay):
             break
     for k in known_hit.values():
         print("KNOWN-FINDING: property=%s %s" % (prop, k["what"]))
+
+    # a table whose pattern no longer matches /repo breaks the tie for the properties whose theorems
+    # or driver layers use that table (and only for those)
+    table_mine, table_other = tables.problems_for(prop, sorted(USED_LAYERS))
+    proof_problems = table_mine + proof_problems
+    if table_other:
+        ctx.notes.append("table extraction problems that do not concern this property: %s" % table_other)
 
     unexplained = []
     if proof_problems:
